@@ -6,7 +6,8 @@
    A history is a list of Pick draws / Done k code w / Advance dt; `ledger s0 ops` records who was picked,
    how often each done func was called and the latencies each connection observed (C14.Proofs.gstep). *)
 From Coq Require Import QArith.
-From God Require Import Base.Prelude C14.Model C14.Spec C14.Proofs.
+From Coq Require Import String.
+From God Require Import Base.Prelude C14.Model C14.Spec C14.Proofs C14.Client.
 Local Open Scope Z_scope.
 
 (* Every pick returns one of the ready connections (the SubConn at the chosen position of the ready set). *)
@@ -196,6 +197,22 @@ Theorem c14_conc_success_range : forall sched s',
 Proof. intros sched s' Ht H. exact (proj1 (conc_score sched cinit s' Ht cinv_init H)). Qed.
 Print Assumptions c14_conc_success_range.
 
+(* How a client ends up with this balancer (rpc/internal/client.go): whatever ClientOptions the caller passes
+   to NewClient, in whatever order and multiplicity, the dial options handed to grpc.DialContext contain the
+   default service config naming the balancer (every ClientOption only appends dial options or sets a flag) ... *)
+Theorem c14_client_keeps_balancer : forall name opts,
+  In (DSvcCfg name) (new_client_dial_options name opts).
+Proof. exact keeps_balancer. Qed.
+Print Assumptions c14_client_keeps_balancer.
+
+(* ... and it is the one grpc acts on (the last default service config wins), unless the caller himself hands
+   another default service config to WithDialOption. *)
+Theorem c14_client_balancer_effective : forall name opts,
+  forallb (fun o => negb (passes_svc o)) opts = true ->
+  effective_policy (new_client_dial_options name opts) = Some name.
+Proof. exact balancer_effective. Qed.
+Print Assumptions c14_client_balancer_effective.
+
 (* ---------------- non-vacuity: the hypotheses are satisfiable and the conclusions bite ---------------- *)
 Definition ex_run (order : list nat) (ops : list (op Q)) : option st :=
   option_map (fun s0 => run Q 0%Q fexprQ Z.sqrt s0 ops) (build 3600000000000 order).
@@ -255,3 +272,9 @@ Proof.
   - intros t tg v Hin. cbn in Hin. repeat (destruct Hin as [Hin|Hin]; [inversion Hin; subst; lia|]). destruct Hin.
   - vm_compute. reflexivity.
 Qed.
+
+(* credentials first, then a user option, non-blocking: 2 built-in chains, then balancer, creds, user option *)
+Example c14_nonvacuous_client :
+  new_client_dial_options "p2c_ewma" [WithTransportCredentials; WithDialOption (DUser 7); WithNonBlock; WithTimeout 5]
+  = [DUnaryChain 5; DStreamChain; DSvcCfg "p2c_ewma"; DCreds; DUser 7].
+Proof. reflexivity. Qed.
